@@ -139,7 +139,7 @@ func vDrainOut(c *Conn) []*FrameHeader {
 // window never reaches zero, a stream that goes on gets its bytes back, no
 // increment is 0 and no window passes 2^31-1.
 //
-//verif:harness prop=C14 unwind=8 timeout=300
+//verif:harness prop=C14 unwind=8 timeout=300 use=vStubRespAppendBodyCount
 func VerifH_C14_client() {
 	c := vNewConn()
 	cur := int32(vU32())
